@@ -1745,7 +1745,7 @@ fn sorted_tokens(b: &[u8]) -> Vec<String> {
 fn classify(trace_name: &str) -> &'static str {
     match trace_name {
         "open_r" | "read" | "stat" | "lstat" | "fstatat" | "statx" | "fstatx" | "fstat" | "opendir" | "readdir" | "readdir_end" => "input",
-        "open_w" | "write" | "mkdir" => "output",
+        "open_w" | "write" | "mkdir" | "rename" | "unlink" => "output",
         "close" => "close",
         _ => "other",
     }
@@ -1785,6 +1785,8 @@ fn drive_c18f(sc: &E2Scenario, rep: &mut RunReport) {
                 "read" => vec![("errno", 5), ("short", rf.below(64) as i64), ("eintr", 0), ("crash", 0)],
                 "write" => vec![("errno", 28), ("errno", 5), ("errno", 122), ("short", rf.below(64) as i64), ("eintr", 0), ("crash", 0), ("torncrash", rf.below(64) as i64), ("crashafter", 0)],
                 "mkdir" => vec![("errno", 13), ("errno", 28), ("crash", 0)],
+                "rename" => vec![("errno", 13), ("errno", 18), ("errno", 28), ("crash", 0)],
+                "unlink" => vec![("errno", 13), ("crash", 0)],
                 "stat" | "lstat" | "fstatat" | "statx" | "fstatx" | "fstat" => vec![("errno", 13), ("errno", 5)],
                 "opendir" => vec![("errno", 13), ("errno", 24)],
                 "readdir" | "readdir_end" => vec![("errno", 5)],
@@ -1998,6 +2000,7 @@ fn errno_name(e: i64) -> &'static str {
         13 => "EACCES",
         24 => "EMFILE",
         28 => "ENOSPC",
+        18 => "EXDEV",
         30 => "EROFS",
         122 => "EDQUOT",
         _ => "E?",
